@@ -14,8 +14,8 @@
    and the error text = Model/Reply.v (C13).  The model reproduces what the code DOES.
 
    Not modelled: logging; `return_response_packet`; set_plc_time(None) (the PC clock); the
-   "datetime"/"string" renderings of get_plc_time (only "microseconds", and the OverflowError of
-   datetime arithmetic beyond datetime.max); the text after "Failed to parse reply - " when a
+   "datetime"/"string" renderings of get_plc_time (only "microseconds", and whether the datetime
+   arithmetic overflows beyond datetime.max: both are then None); the text after "Failed to parse reply - " when a
    data type fails to decode ([EParse]). *)
 From Coq Require Import String.
 From PV Require Import Base.Bytes Base.Res Base.Proto Base.PyStr.
@@ -113,6 +113,7 @@ Definition ucsend_part (rp message route : bytes) (name : text) : res bytes :=
   else if text_eqb name (T "message") then Ok message
   else if text_eqb name (T "pad") then Ok (if Z.odd (len message) then [0] else [])
   else if text_eqb name (T "route") then Ok route
+  else if text_eqb name (T "route_or_empty") then Ok (match route with [] => ucsend_empty_route | _ => route end)
   else Err (Foreign NotImplementedError).
 
 Definition wrap_unconnected_send (message route : bytes) : res bytes :=
@@ -357,11 +358,13 @@ Definition get_plc_info_response (a : gm_args) (raw : bytes) : res CodecPrim.val
 
 (* --- LogixDriver.get_plc_time: Tag("get_plc_time", value, None, error=tag.error); only the
    "microseconds" entry of the value is modelled; datetime(1970,1,1) + timedelta(microseconds=us)
-   raises OverflowError beyond datetime.max *)
+   raises OverflowError beyond datetime.max, which the code catches (regenerated fact):
+   "datetime" and "string" are then None *)
 Definition get_plc_time_request (d : drv) : drv * outcome (gm_args * bytes) :=
   bind_args (args_of_call d call_get_plc_time call_get_plc_time_struct [] default_route) d (gm_request d).
 
-Record time_tag := { tt_microseconds : option Z; tt_error : option gerr }.
+(* tt_datetime: value["datetime"] / value["string"] are present (false: both None) *)
+Record time_tag := { tt_microseconds : option Z; tt_datetime : bool; tt_error : option gerr }.
 
 Definition get_plc_time_response (a : gm_args) (raw : bytes) : res time_tag :=
   let* t := gm_response a raw in
@@ -372,13 +375,15 @@ Definition get_plc_time_response (a : gm_args) (raw : bytes) : res time_tag :=
         match us with
         | CodecPrim.VInt z =>
             if z <=? datetime_max_us
-            then Ok {| tt_microseconds := Some z; tt_error := g_error t |}
+            then Ok {| tt_microseconds := Some z; tt_datetime := true; tt_error := g_error t |}
+            else if get_plc_time_catches_overflow
+            then Ok {| tt_microseconds := Some z; tt_datetime := false; tt_error := g_error t |}
             else Err (Foreign OverflowError)
         | _ => Err (Foreign TypeError)
         end
     | _ => Err (Foreign TypeError)
     end
-  else Ok {| tt_microseconds := None; tt_error := g_error t |}.
+  else Ok {| tt_microseconds := None; tt_datetime := false; tt_error := g_error t |}.
 
 (* --- LogixDriver.set_plc_time(microseconds): _struct.encode([1, 6, microseconds]) is evaluated
    before generic_message is entered *)
